@@ -20,6 +20,7 @@ void harness(void){
   verif_snprintf_register = 1;
   int r = snoopy_output_devlogoutput(msg, arg);
   __CPROVER_assert(verif_fd_open == 0, "devlog output: the socket is closed again");
+  VERIF_ASSERT_SIGNALS_UNTOUCHED();
   if (len == 0) { __CPROVER_assert(verif_nev == 0 && r == SNOOPY_OUTPUT_GRACEFUL_DISCARD, "devlog output: empty message produces nothing"); }
   else {
     int s = verif_first(EV_SEND);
